@@ -13,6 +13,9 @@ import (
 )
 
 func init() {
+	vRegister("vC12_time1", vC12_time1)
+	vRegister("vC12_time2", vC12_time2)
+	vRegister("vC12_time3", vC12_time3)
 	vRegister("vC12_time4", vC12_time4)
 	vRegister("vC12_time5", vC12_time5)
 	vRegister("vC12_time6", vC12_time6)
@@ -198,6 +201,9 @@ func vC12_time(K int) {
 	vCover("end")
 }
 
+func vC12_time1() { vC12_time(1) }
+func vC12_time2() { vC12_time(2) }
+func vC12_time3() { vC12_time(3) }
 func vC12_time4() { vC12_time(4) }
 func vC12_time5() { vC12_time(5) }
 func vC12_time6() { vC12_time(6) }
